@@ -120,6 +120,7 @@ def _qdecl_defaults(q):
     sc = {k2: v for k2, v in ((''.join(chr(c) for c in k).upper(), v) for k, v in q['scopes'])}
     if sc.get('ANY'):
         sc = {k: True for k in ('ASSOCIATION', 'CLASS', 'INDICATION', 'METHOD', 'PARAMETER', 'PROPERTY', 'REFERENCE')}
+    sc.pop('ANY', None)             # 'any: False' carries no information (and has no DTD attribute)
     q['scopes'] = [[cimproto.cps(k), v] for k, v in sorted(sc.items())]
     return q
 
